@@ -69,6 +69,7 @@ func c19Body(o c19Opts) func() {
 		var clientSessions []*Session
 		var ths []*vrt.Thread
 		acceptErrs := 0
+		listenerClosed := false
 		// server: Accept loop, then per-conn echo reader
 		ths = append(ths, vrt.GoProc("acceptor", 2, func() {
 			for len(accepted) < total {
@@ -164,7 +165,7 @@ func c19Body(o c19Opts) func() {
 			}))
 		}
 		if o.closeListener {
-			ths = append(ths, vrt.GoLazy("listener-closer", 2, func() { ln.Close() }))
+			ths = append(ths, vrt.GoLazy("listener-closer", 2, func() { ln.Close(); listenerClosed = true }))
 		}
 		vrt.WaitThreads(ths...)
 		vrt.WaitIdle(vrt.Second)
@@ -212,9 +213,10 @@ func c19Body(o c19Opts) func() {
 				a.conn.Close()
 				a.conn.Close() // idempotent
 			}
-			ln.Close() // conns that were accepted from a session but never handed out by Accept are the listener's to close
-			if _, err := ln.Accept(); err == nil {
-				vrt.Failf("accept-after-close", "Accept on a closed listener returned a conn")
+			if !listenerClosed {
+				// (a listener the scenario already closed is not closed a second time: a second Close would release
+				// whatever the first one forgot)
+				ln.Close() // conns that were accepted from a session but never handed out by Accept are the listener's to close
 			}
 		})
 		vrt.WaitThreads(fin)
@@ -224,6 +226,12 @@ func c19Body(o c19Opts) func() {
 				vrt.Failf("session-not-closed", "listener and all its conns are closed; a server session is still open (%d active streams)", s.GetActiveStreamCount())
 			}
 		}
+		fa := vrt.GoProc("accept-after-close", 2, func() {
+			if _, err := ln.Accept(); err == nil {
+				vrt.Failf("accept-after-close", "Accept on a closed listener returned a conn")
+			}
+		})
+		vrt.WaitThreads(fa)
 		fc := vrt.GoProc("finish-clients", 1, func() {
 			for _, s := range clientSessions {
 				s.Close()
@@ -245,5 +253,6 @@ func TestVerif_C19(t *testing.T) {
 		mk(c19Opts{name: "two-sessions", sessions: 2, streams: 1, clientCloses: true}, 1, 2),
 		mk(c19Opts{name: "read-deadline", sessions: 1, streams: 1, deadline: true}, 1, 2),
 		mk(c19Opts{name: "listener-close-anytime", sessions: 1, streams: 2, closeListener: true}, 1, 2),
+		mk(c19Opts{name: "listener-close-anytime-one-stream", sessions: 1, streams: 1, closeListener: true}, 2, 3),
 	})
 }
